@@ -534,6 +534,7 @@ def install(E):
     M['__cxa_guard_acquire'] = m_guard_acquire; M['__cxa_guard_release'] = m_guard_release; M['__cxa_guard_abort'] = m_nop
     M['__cxa_atexit'] = m_zero
     M['_ZNSt8ios_base4InitC1Ev'] = m_nop; M['_ZNSt8ios_base4InitD1Ev'] = m_nop
+    M['pthread_self'] = lambda E, fr, args: 1
     M['pthread_mutex_lock'] = m_zero; M['pthread_mutex_unlock'] = m_zero; M['pthread_mutex_trylock'] = m_zero
     M['pthread_mutex_init'] = m_zero; M['pthread_mutex_destroy'] = m_zero
     M['llvm.stacksave'] = m_zero; M['llvm.stackrestore'] = m_nop
